@@ -102,7 +102,7 @@ CMP_OPS = ["==", "!=", ">", "<", ">=", "<=", "in", "not in"]
 STR_ALPHABET = ["a", "b", "Z", "0", "1", "9", " ", "_", "-", ".", "'", '"', "\\", "n", "t", "x", "u", "(", ")", "+",
                 "{", "}", "%", "/", "*", "#", ":", ",", "=", "é", "ß", "中", "\u0301", "😀", "\t", "\x00", "\x7f", "\u00a0",
                 "\u0378", "\u2028", "\u201c", "\u201d", "\u2018", "\u2019", "\ufeff", "\u200b", "\u00ad", "\U0001d400", "\U00020000", "\uff02", "`", "\u00b4"]
-STR_SPECIALS = ["a\u201d or x == \u201cb", "\u2018q\u2019", "x\ufeffy", "\ufeff", "\U0001d400", "a\U0001f600b", "\uffff", "\U00010000", "", "02134", "inf", "nan", "1e5", "0x10", "-1", "1.0", "True", "None", "it's", 'say "hi"', "C:\\temp",
+STR_SPECIALS = ["\uffff", "a\uffffb", "\ufffe", "\x1a", "\x04", "\U0010ffff", "a\u201d or x == \u201cb", "\u2018q\u2019", "x\ufeffy", "\ufeff", "\U0001d400", "a\U0001f600b", "\uffff", "\U00010000", "", "02134", "inf", "nan", "1e5", "0x10", "-1", "1.0", "True", "None", "it's", 'say "hi"', "C:\\temp",
                 "a\\nb", "\\", "\\\\", "'+str(print('PWNED'))+'", "%s", "{0}", "//c", "/*", "*/", "def", "return",
                 "josé", "jose\u0301", "😀", " ", "\\x41", "\\u0041", "\\N{BULLET}", "'''", '"""', "\\'", "a'b\"c" if False else "a'b"]
 
@@ -750,7 +750,7 @@ def render(prog, rng=None, style="plain"):
 
 
 WS_CHARS = [" ", "  ", "\t", "\n", "\r\n", "\n\n", " \n ", "\u00a0", "\u2003", "\x0c", "\x0b", "\u2028", "\r"]
-COMMENT_BODIES = ["", " c ", "x", "'", '"', "\"unterminated", "def e { }", "return", "//", "/", "*", "**", "/ *", "* /",
+COMMENT_BODIES = ["\uffff note", "a\n\uffff b", "\ufffe", "\x00", "x\x00y", "\x1a", "\x04end", "\ufdd0", "\U0010ffff", "\U0001ffff z", "\x7f", "\x1b[0m", "", " c ", "x", "'", '"', "\"unterminated", "def e { }", "return", "//", "/", "*", "**", "/ *", "* /",
                   "/*", "if x == 1", "}", "{", "é中", "\\", "a*b/c", "*/*"[:0] + "nested /* open", "--", "#", "weighted 0",
                   'old arm:\x0c, "B" weighted 1', "x\x0b}", "a\x1cb", "n\x85 return", "u\u2028 def", "p\u2029q", "cr\rdef e {", "\x1d\x1e"]
 
